@@ -123,3 +123,39 @@ def loops_in(fn):
 
 def decorators(fn):
     return [ast.unparse(d) for d in fn.decorator_list]
+
+
+def class_mro(relpath, cls):
+    """linearisation over the classes defined in the same file (depth first, left to right, first occurrence);
+    bases defined elsewhere (ABC, imported classes) are left out"""
+    tree, _ = load_module(relpath)
+    classes = {c.name: c for c in tree.body if isinstance(c, ast.ClassDef)}
+    out = []
+
+    def walk(name):
+        if name in out or name not in classes:
+            return
+        out.append(name)
+        for b in classes[name].bases:
+            if isinstance(b, ast.Name):
+                walk(b.id)
+    walk(cls)
+    return out
+
+
+def resolve_method(relpath, cls, name):
+    """`Class.name` of the first class in cls' MRO (same file) that defines `name`, or None"""
+    for c in class_mro(relpath, cls):
+        try:
+            node = select(relpath, f'{c}.{name}')
+        except SelectorError:
+            continue
+        if isinstance(node, (ast.FunctionDef, ast.AsyncFunctionDef)):
+            return f'{c}.{name}'
+    return None
+
+
+def subclasses(relpath, base):
+    """names of the classes of the file that have `base` in their MRO (base excluded), source order"""
+    tree, _ = load_module(relpath)
+    return [c.name for c in tree.body if isinstance(c, ast.ClassDef) and c.name != base and base in class_mro(relpath, c.name)]
